@@ -248,7 +248,7 @@ def cmp_streams(go_streams, model_streams, scale=1.0):
 
 
 # ---------------------------------------------------------------- Lean obligations
-EXTRA_MODULES = {'C03': ['C03Change', 'C03MovingSum', 'C03Dyn', 'C03Ema', 'C03Compose', 'C03Sma', 'C03Chain'], 'C01': ['C01Gen', 'C01Int'], 'C18': ['C18Gen', 'C18More'], 'C14': ['C14More'], 'C16': ['C16More'], 'C13': ['C13More'], 'C05': ['C05Hand', 'C06More', 'C06Vwma'], 'C06': ['C06Hand', 'C06More', 'C06Vwma']}
+EXTRA_MODULES = {'C03': ['C03Change', 'C03MovingSum', 'C03Dyn', 'C03Ema', 'C03Compose', 'C03Sma', 'C03Chain', 'C03Window'], 'C01': ['C01Gen', 'C01Int'], 'C18': ['C18Gen', 'C18More'], 'C14': ['C14More'], 'C16': ['C16More'], 'C13': ['C13More'], 'C05': ['C05Hand', 'C06More', 'C06Vwma'], 'C06': ['C06Hand', 'C06More', 'C06Vwma']}
 
 
 def lean_obligations(prop):
